@@ -544,3 +544,5 @@ M('wire-xtra-not-sent', ['C09'], Z, "                env['xtra'] = msg[0]\n", ""
 M('wire-frames-from-index-3', ['C09'], Z, "                    msg        = [env.get('xtra'), *msg[2:]]", "                    msg        = [env.get('xtra'), *msg[3:]]", ['C09.R6'])
 M('wire-publisher-drops-second-frame', ['C09'], Z, "json_dumps(env, separators=(',', ':')).encode(), *msg[1:]]", "json_dumps(env, separators=(',', ':')).encode(), *msg[2:]]", ['C09.R6'])
 M('wire-xtra-key-mismatch', ['C09'], Z, "                    msg        = [env.get('xtra'), *msg[2:]]", "                    msg        = [env.get('extra'), *msg[2:]]", ['C09.R6'])
+M('required-outputs-polarity', ['C03'], Z, "do_send    = all(client_id in client_ids for client_id in self.outs_required)", "do_send    = all(client_id not in client_ids for client_id in self.outs_required)", ['C03.R6'])
+M('required-outputs-any', ['C03'], Z, "do_send    = all(client_id in client_ids for client_id in self.outs_required)", "do_send    = any(client_id in client_ids for client_id in self.outs_required) or not self.outs_required", ['C03.R6'])
